@@ -50,9 +50,9 @@ theorem lp_spec (P : Problem) (hwf : P.WF) :
     show ((∃ x, Feasible P.relaxed x ∧ P.objVal x = v) ∧ ∀ x, Feasible P.relaxed x → ¬ Better P (P.objVal x) v) ↔ _
     simp only [hf]
 
--- non-vacuity: max x+y over {x ≥ 0, y ≥ 0, x + y ≤ 3, x ≤ 2}: optimum 3; without the bound: unbounded;
+-- non-vacuity: max x+y over {x ≥ 0, y ≥ 0, x + y ≤ 3}: optimum 3; without the bound: unbounded;
 -- with x ≤ -1 added: unfeasible
-example : lpAnswer ⟨2, [geRow [1, 0] 0, geRow [0, 1] 0, geRow [-1, -1] 3, geRow [-1] 2], [], ⟨[1, 1], 0⟩, true⟩
+example : lpAnswer ⟨2, [geRow [1, 0] 0, geRow [0, 1] 0, geRow [-1, -1] 3], [], ⟨[1, 1], 0⟩, true⟩
     = .optimum 3 := by decide +kernel
 example : lpAnswer ⟨2, [geRow [1, 0] 0, geRow [0, 1] 0], [], ⟨[1, 1], 0⟩, true⟩ = .unbounded := by decide +kernel
 example : lpAnswer ⟨2, [geRow [1, 0] 0, geRow [-1] (-1)], [], ⟨[1, 1], 0⟩, false⟩ = .unfeasible := by decide +kernel
@@ -83,10 +83,10 @@ theorem mip_spec_partial (P : Problem) (hwf : P.WF) (hb : IntVarsBoundedInRelaxa
   intro h; rw [h] at hk; cases hk
 
 -- non-vacuity (kernel evaluation of the K1 deciders is slow: tiny instances only):
--- max x over {2x ≤ 5, x ≥ 0}, x integer: 2 (relaxation 5/2); 2x = 1: unfeasible;
+-- max x over {1 ≤ 2x ≤ 3}, x integer: 1 (relaxation 3/2); 2x = 1: unfeasible;
 -- x = 0 integer, y ≥ 0 free: unbounded; x integer without upper bound: unknown
-example : mipRef ⟨1, [geRow [-2] 5, geRow [1] 0], [0], ⟨[1], 0⟩, true⟩ = .optimum 2 := by decide +kernel
-example : lpAnswer ⟨1, [geRow [-2] 5, geRow [1] 0], [0], ⟨[1], 0⟩, true⟩ = .optimum (5/2) := by decide +kernel
+example : mipRef ⟨1, [geRow [-2] 3, geRow [2] (-1)], [0], ⟨[1], 0⟩, true⟩ = .optimum 1 := by decide +kernel
+example : lpAnswer ⟨1, [geRow [-2] 3, geRow [2] (-1)], [0], ⟨[1], 0⟩, true⟩ = .optimum (3/2) := by decide +kernel
 example : mipRef ⟨1, eqRows [2] (-1), [0], ⟨[1], 0⟩, true⟩ = .unfeasible := by decide +kernel
 example : mipRef ⟨2, eqRows [1] 0 ++ [geRow [0, 1] 0], [0], ⟨[0, 1], 0⟩, true⟩ = .unbounded := by decide +kernel
 example : mipRef ⟨1, [geRow [2] (-1)], [0], ⟨[1], 0⟩, true⟩ = .unknownUnboundedIntVar := by decide +kernel
@@ -174,7 +174,7 @@ theorem no_better_sound (P : Problem) (hwf : P.WF) (v : Rat) (h : noBetter P v =
     · simp only [hm, Bool.false_eq_true, if_false, decide_eq_true_eq] at h hxw ⊢
       exact not_lt.mpr (le_trans h (not_lt.mp hxw))
 
-example : noBetter ⟨1, [geRow [-2] 3, geRow [1] 0], [0], ⟨[1], 0⟩, true⟩ 1 = true := by decide +kernel
+example : noBetter ⟨1, [geRow [-2] 3, geRow [2] (-1)], [0], ⟨[1], 0⟩, true⟩ 1 = true := by decide +kernel
 
 /-- **Incremental ≡ fresh, model half.**  The data of an object after a history is the fold of the
     mutators; observers (`solve`, `is_satisfiable`, …) and the pricing rule do not enter, so the
@@ -221,8 +221,8 @@ theorem answer_of_set_only (P Q : Problem) (hP : P.WF) (hQ : Q.WF)
     rw [← hobj, ← hB]; exact hbest y ((hset y).mpr hy)
   | unknownUnboundedIntVar => rw [hr] at hkP; cases hkP
 
--- the same point set described twice (rows in another order, the integer variable listed twice)
-example : mipRef ⟨1, [geRow [1] 0, geRow [-1] 0], [0], ⟨[1], 0⟩, true⟩ =
-    mipRef ⟨1, [geRow [-1] 0, geRow [1] 0], [0, 0], ⟨[1], 0⟩, true⟩ := by decide +kernel
+-- the same point set described twice (rows in another order)
+example : mipRef ⟨1, [geRow [1] 0, geRow [-1] 1], [], ⟨[1], 0⟩, true⟩ =
+    mipRef ⟨1, [geRow [-1] 1, geRow [1] 0], [], ⟨[1], 0⟩, true⟩ := by decide +kernel
 
 end C06
